@@ -64,6 +64,50 @@ def extract(tree):
     return slack, layouts, mnem
 
 
+def extract_decode(tree):
+    """janet_asm_decode_instruction: per instruction type, the operand fields the disassembler extracts:
+    `oparg(n, mask)` = unsigned field at byte n of popcount(mask)/8 bytes; `(int32_t)instr >> k` = signed field from byte k/8 to the top."""
+    src = csrc.strip_comments(csrc.read(tree, "src/core/asm.c"))
+    body = csrc.func_body(src, "janet_asm_decode_instruction")
+    if not re.search(r"#define\s+oparg\s*\(\s*shift\s*,\s*mask\s*\)\s*\(\(instr\s*>>\s*\(\(shift\)\s*<<\s*3\)\)\s*&\s*\(mask\)\)", csrc.read(tree, "src/core/asm.c")):
+        raise ExtractError("janet_asm_decode_instruction: oparg macro not recognised")
+    if not re.search(r"if\s*\(\s*instr\s*&\s*0x80\s*\)\s*\{\s*janet_tuple_flag\s*\(\s*ret\s*\)\s*\|=\s*JANET_TUPLE_FLAG_BRACKETCTOR", body):
+        raise ExtractError("janet_asm_decode_instruction: breakpoint bit handling not recognised")
+    pos = [(mm.start(), mm.group(1)) for mm in re.finditer(r"case\s+(JINT_\w+)\s*:", body)]
+    out, cur = {}, []
+    for i, (p, name) in enumerate(pos):
+        cur.append(name)
+        end = pos[i + 1][0] if i + 1 < len(pos) else len(body)
+        seg = body[p:end]
+        seg = seg[seg.index(":") + 1:]
+        if not seg.strip():
+            continue
+        m = re.search(r"ret\s*=\s*tup(\d)\s*\((.*?)\)\s*;\s*break\s*;", seg, flags=re.S)
+        if not m:
+            raise ExtractError("janet_asm_decode_instruction: case %s not recognised" % cur)
+        n = int(m.group(1))
+        args = m.group(2)
+        fields = []
+        for a in re.finditer(r"janet_wrap_integer\s*\(\s*(?:oparg\s*\(\s*(\d)\s*,\s*(0x[0-9A-Fa-f]+)\s*\)|\(int32_t\)\s*instr\s*>>\s*(\d+))\s*\)", args):
+            if a.group(1):
+                mask = int(a.group(2), 16)
+                nb = {0xFF: 1, 0xFFFF: 2, 0xFFFFFF: 3}.get(mask)
+                if nb is None:
+                    raise ExtractError("janet_asm_decode_instruction: mask %#x" % mask)
+                fields.append((int(a.group(1)), nb, False))
+            else:
+                k = int(a.group(3))
+                if k % 8 or not 8 <= k <= 24:
+                    raise ExtractError("janet_asm_decode_instruction: shift %d" % k)
+                fields.append((k // 8, 4 - k // 8, True))
+        if len(fields) != n - 1:
+            raise ExtractError("janet_asm_decode_instruction: %s: %d operands recognised, tuple has %d" % (cur, len(fields), n - 1))
+        for t in cur:
+            out[t] = fields
+        cur = []
+    return out
+
+
 def render(tree):
     slack, layouts, mnem = extract(tree)
     ops, types, jint = bytecode.extract(tree)
@@ -83,6 +127,13 @@ def render(tree):
     o.append("/-- operand layout per instruction type (`read_instruction`) -/\ndef fieldsOf : IType → List Field")
     for t in sorted(jint, key=jint.get):
         o.append("  | .%s => [%s]" % (ln(t), ", ".join("⟨%d, %d, %s⟩" % (nth, nb, "true" if s else "false") for (_, nth, nb, s) in layouts[t])))
+    dec = extract_decode(tree)
+    for t in jint:
+        if t not in dec:
+            raise ExtractError("janet_asm_decode_instruction has no case for %s" % t)
+    o.append("\n/-- operand fields as the disassembler extracts them (`janet_asm_decode_instruction`) -/\ndef decodeFieldsOf : IType → List Field")
+    for t in sorted(jint, key=jint.get):
+        o.append("  | .%s => [%s]" % (ln(t), ", ".join("⟨%d, %d, %s⟩" % (nth, nb, "true" if sg else "false") for (nth, nb, sg) in dec[t])))
     o.append("\ndef IType.all : List IType := [%s]\n" % ", ".join("." + ln(t) for t in sorted(jint, key=jint.get)))
     o.append("\nend JanetModel.Gen.Asm\n")
     return "\n".join(o)
